@@ -1,4 +1,5 @@
 import Failsafe.Conc.Lockset
+import Failsafe.Conc.Linearize
 import Failsafe.Generated.Facts
 /-!
 # C14 — shared policies and executors are safe for concurrent use
@@ -73,6 +74,14 @@ theorem calls_under_lock_are_the_listeners :
 theorem no_deadlock (o : Owners) (w : Waiting) (h : NoNesting o w) (t m : Nat) (hw : w t = some m) :
     o m = none ∨ ∃ u, o m = some u ∧ w u = none :=
   Failsafe.Conc.Lockset.no_deadlock o w h t m hw
+
+/-- **the linearizability verdict of the correspondence check is exact**: the search the driver runs over a recorded concurrent
+history (`Conc/Linearize.lean`) returns no state iff no order of the operations exists that respects real time and reproduces
+every observed result on the sequential model — so a reported history is never an artefact of the search, and an accepted one
+really has a linearization -/
+theorem linearizability_verdict_exact {σ : Type} (step : σ → String → σ × String) (m : σ) (ops : List Failsafe.Conc.Linearize.HOp) :
+    Failsafe.Conc.Linearize.linearize step (ops.length + 1) m ops = [] ↔ ¬ ∃ m', Failsafe.Conc.Linearize.IsLin step m ops m' :=
+  Failsafe.Conc.Linearize.not_linearizable_iff step m ops
 
 /-! ## non-vacuity: a valid two-thread trace with the ordering chain, and an invalid one -/
 
